@@ -44,8 +44,9 @@ structure Fault where
   notReady : Bool := false
   statusFail : Bool := false     -- `GET targets/status` fails
   rtFail : Bool := false         -- `GET runtimeinfo` fails
-  outOfSync : Bool := false      -- config hash differs and the push fails
+  outOfSync : Bool := false      -- config hash differs …
   postLost : Bool := false       -- `POST shard/targets` does not reach the sidecar
+  pushOk : Bool := false         -- … and the push of the raw configuration succeeds: the shard is in sync afterwards
   deriving Repr, DecidableEq, Inhabited
 
 def stOf (s : Sidecar.SS) : St :=
@@ -66,8 +67,8 @@ def probeOf (env : Env) (sh : Shard) (f : Fault) : Probe :=
   { ready := !f.notReady
     status := if f.statusFail then none else some (statusOf sh)
     rt1 := if f.rtFail then none else some (rtOf env sh, !f.outOfSync)
-    pushOk := false
-    rt2 := none
+    pushOk := f.pushOk
+    rt2 := if f.pushOk && !f.rtFail then some (rtOf env sh, true) else none
     postOk := !f.postLost }
 
 /-- the update request built from the coordinator's plan for this shard (`updateScrapingTargets`):
